@@ -27,6 +27,9 @@ func FToBaseStr(num float64, radix int) string {
 			ldfloor = -ldfloor
 		}
 		intDigits = strconv.FormatInt(ldfloor, radix)
+		if negative && ldfloor == 0 {
+			intDigits = "-0"
+		}
 	} else {
 		floorBits := math.Float64bits(num)
 		exp := int(floorBits>>exp_shiftL) & exp_mask_shifted
